@@ -460,7 +460,7 @@ class Group:
             return True
         if not samebits(a0[1], a1[1]):
             return True
-        if self.stats["fresh-process-pair-confirmations"] >= 4 * ESCALATION_CAP:
+        if self.stats["fresh-process-pair-confirmations"] >= 3:
             self.stats["same-name-pair-numpy-differs-unconfirmed(cap)"] += 1
             return False
         self.stats["fresh-process-pair-confirmations"] += 1
